@@ -637,10 +637,12 @@ class TestManager:
             self.remove_root()
         except KeyboardInterrupt:
             logging.info('Exiting now ...')
+            self.kill_pid_queue()
             self.remove_root()
             sys.exit(1)
         except BaseException:
-            # do not leave the pass root behind when the pass ends with an error
+            # do not leave the pass root or running test scripts behind when the pass ends with an error
+            self.kill_pid_queue()
             self.remove_root()
             raise
 
